@@ -20,7 +20,14 @@ from harness import c14fam as F
 
 RECLIMIT = 600
 SPEC_RE = re.compile(r"_[0-9a-f]{32}$")
-ATTR_RE = re.compile(r"has no attribute '(__dialect_\w+_cache__|__mashumaro_(?:to|from)_\w+__)'")
+SELF_ATTR_RE = re.compile(r"(?:'(\w+)' object|type object '(\w+)') has no attribute '__mashumaro_(?:to|from)_dict\w*__'")
+
+
+def self_referencing(fam, name) -> bool:
+    for i, c in enumerate(fam["classes"]):
+        if c["name"] == name:
+            return any(t[0] == "dc" and t[1] == i for _, t in F.all_fields(fam, i))
+    return False
 
 
 # ---------------------------------------------------------------------------
@@ -143,42 +150,21 @@ def has_class_cycle(fam) -> bool:
     return any(i in reach(i) for i in range(n))
 
 
-def has_dsup_gap(fam) -> bool:
-    """a class WITHOUT ADD_DIALECT_SUPPORT that inherits from a class WITH it: it inherits the parent's
-    __dialect_*_cache__ attributes (the generated `cls.<cache>[dialect] = f` then writes into the parent's dict)"""
-    cl = fam["classes"]
-    for c in cl:
-        p = c["parent"]
-        while p is not None:
-            if cl[p]["dsup"] and not c["dsup"]:
-                return True
-            p = cl[p]["parent"]
-    return False
-
-
-def inherited_method_gap(fam, snap) -> bool:
-    """some class C was compiled on demand for a dialect only (its dialect cache of a format/direction is filled)
-    and has no own nested method of that format/direction, while an ancestor has one: the generated call
-    C.__mashumaro_<dir>_dict[_<fmt>]__ then resolves through the MRO to the ancestor's code"""
-    cl = fam["classes"]
-    for c in cl:
+def selfref_dialect_gap(fam, snap) -> bool:
+    """a SELF-REFERENCING class whose dialect cache of some (format, direction) is filled while the class has no own
+    nested method for it: the dialect-specific builder took the 'class being compiled' shortcut; the generated call
+    then raises AttributeError or - if an ancestor has the method - silently runs the ancestor's code"""
+    for c in fam["classes"]:
         own = snap.get(c["name"])
-        if not own or c["parent"] is None:
+        if not own or not self_referencing(fam, c["name"]):
             continue
         for cname, ds in own["c"].items():
-            if not ds:
-                continue
             mm = re.match(r"^(\w+)_(packer|unpacker)$", cname)
-            if not mm:
+            if not ds or not mm:
                 continue
             name = ("to" if mm.group(2) == "packer" else "from") + "_dict" + ("" if mm.group(1) == "dict" else "_" + mm.group(1))
-            if name in own["m"]:
-                continue
-            p = c["parent"]
-            while p is not None:
-                if name in snap.get(cl[p]["name"], {"m": {}})["m"]:
-                    return True
-                p = cl[p]["parent"]
+            if name not in own["m"]:
+                return True
     return False
 
 
@@ -188,10 +174,8 @@ def classify(fam, op, got, exp, got_aux, exp_aux, got_snap, exp_snap, src="") ->
     side that failed; otherwise 'history-dependence' (= a violation)."""
     sig = {"kind": "history-dependence", "got": got[1] if got[0] == "EXC" else "OK", "exp": exp[1] if exp[0] == "EXC" else "OK"}
     for side, snap in (("family", got_snap), ("twin", exp_snap)):
-        if "dialect=" in op and fam["classes"] and inherited_method_gap(fam, snap):
-            # dialect call before the default compile, on a subclass whose parent already has the nested method:
-            # the parent's code runs on the subclass (TypeError for required fields, silently dropped fields otherwise)
-            return {**sig, "kind": "dialect-build-uses-inherited-parent-method", "side": side}
+        if "dialect=" in op and fam["classes"] and selfref_dialect_gap(fam, snap):
+            return {**sig, "kind": "dialect-first-call-on-self-referencing-class", "side": side}
     for side, out, aux, snap in (("family", got, got_aux, got_snap), ("twin", exp, exp_aux, exp_snap)):
         other = exp if side == "family" else got
         if out[0] != "EXC" or out == other:
@@ -200,6 +184,12 @@ def classify(fam, op, got, exp, got_aux, exp_aux, got_snap, exp_snap, src="") ->
             # the registry of discriminated subtypes is shared by all formats: once another format filled it,
             # Sub.__mashumaro_from_dict_<fmt>__ resolves through the MRO to the base class' dispatcher
             return {**sig, "kind": "discriminator-registry-shared-across-formats", "side": side}
+        if len(out) > 4 and out[3] == "AttributeError" and "dialect=" in op:
+            mm = SELF_ATTR_RE.search(out[4])
+            if mm and self_referencing(fam, mm.group(1) or mm.group(2)):
+                # a dialect-specific builder takes the "class being compiled" shortcut for a self reference, but it
+                # installs no default method: the first call with a dialect on a self-referencing class fails
+                return {**sig, "kind": "dialect-first-call-on-self-referencing-class", "side": side}
         if out[1] == "RecursionError":
             if aux.get("rec") == "redispatch" and has_spec_stub(snap):
                 # the stub installed for a specialised method G.__mashumaro_*_<md5>__ rebuilds the
@@ -208,14 +198,6 @@ def classify(fam, op, got, exp, got_aux, exp_aux, got_snap, exp_snap, src="") ->
             if aux.get("rec") == "build-cycle" and has_class_cycle(fam):
                 # on-demand nested compilation follows a class cycle whose methods are installed only at the end
                 return {**sig, "kind": "ondemand-build-cycle", "side": side}
-        if (len(out) > 4 and out[3] == "TypeError" and "unexpected keyword argument 'dialect'" in out[4] and "dialect=" in op
-                and (has_dsup_gap(fam) or not fam["classes"])):
-            # an earlier dialect-specific on-demand build of a subclass without dialect support stored ITS function
-            # in the inherited cache of the parent class
-            return {**sig, "kind": "dialect-cache-inherited-by-subclass", "side": side}
-        if len(out) > 4 and out[3] == "AttributeError" and "dialect=" in op and ATTR_RE.search(out[4]):
-            # a dialect-specific build met a nested class whose default method was not compiled yet
-            return {**sig, "kind": "dialect-call-before-default-compile", "side": side}
     return sig
 
 
@@ -284,6 +266,11 @@ def oracle_histories(ctx: vlib.Ctx, n: int, keep_cases=None, focus=None):
             for o in ("onf", "baf", "ctx"):
                 if c.get(o):
                     feats.add("flag:" + o)
+            if c.get("cdial"):
+                feats.add("Config.dialect")
+            for _, t in c["fields"]:
+                if t[0] in ("bytes", "date", "ghost"):
+                    feats.add("field:" + t[0])
             if c["dsup"]:
                 feats.add("dialect-support")
             if c["parent"] is not None:
@@ -506,8 +493,8 @@ def run(ctx: vlib.Ctx):
         from harness.props import c14_coq
         c14_coq.theorems(ctx)
         cases = []
-        oracle_histories(ctx, ctx.budget(120, 1500), keep_cases=cases)
-        oracle_histories(ctx, ctx.budget(40, 400), keep_cases=cases, focus="spec")
+        oracle_histories(ctx, ctx.budget(110, 1500), keep_cases=cases)
+        oracle_histories(ctx, ctx.budget(60, 500), keep_cases=cases, focus="spec")
         oracle_histories(ctx, ctx.budget(40, 400), keep_cases=cases, focus="kwargs")
         tie_ok = c14_coq.correspondence(ctx, cases)
         if not tie_ok or ctx.unshown:
